@@ -83,9 +83,11 @@ OccS(vs, nm, n) == IF n = 0 THEN 0 ELSE Occ(vs[n], nm) + OccS(vs, nm, n - 1)
 
 ---------------------------------------------------------------------------
 (* evaluation state.  log: the fallible calls in order; sites: for each of them the syntax form that issued it;  *)
+(* held: number of enclosing for loops / except clauses (constructs that keep references of their own while their *)
+(* body runs) -- only used to describe cases                                                                     *)
 (* sem: semantic events worth naming in a case description (a pending return / exception that is discarded)      *)
 St0(k) == [log |-> <<>>, sites |-> <<>>, sem |-> <<>>, cnt |-> 0, k |-> k, nid |-> 0, exc |-> "", sig |-> "", rv |-> NoneV,
-           x |-> Unb, y |-> Unb, ci |-> 0, g |-> NoneV]
+           x |-> Unb, y |-> Unb, ci |-> 0, g |-> NoneV, held |-> 0]
 Res(st, v) == [st |-> st, v |-> v]
 Raise(st, e) == [st EXCEPT !.exc = e, !.sig = ""]
 Abn(st) == st.exc # "" \/ st.sig # ""
@@ -242,19 +244,23 @@ Exec(s, st) ==
     [] s.t = "for" ->
          LET r == Eval(s.a[1], st) IN
          IF r.st.exc # "" THEN r.st
-         ELSE IF r.v.k \in Containers THEN LoopD(r.v.it, 1, s.s, s.a[2], r.st)
+         ELSE IF r.v.k \in Containers
+              THEN [LoopD(r.v.it, 1, s.s, s.a[2], [r.st EXCEPT !.held = @ + 1]) EXCEPT !.held = st.held]
          ELSE LET it == IterOf(r.st, r.v, "for") IN
-              IF it.st.exc # "" THEN it.st ELSE LoopO(it.v, 0, s.s, s.a[2], it.st)
+              IF it.st.exc # "" THEN it.st
+              ELSE [LoopO(it.v, 0, s.s, s.a[2], [it.st EXCEPT !.held = @ + 1]) EXCEPT !.held = st.held]
     [] s.t = "break" -> [st EXCEPT !.sig = "brk"]
     [] s.t = "continue" -> [st EXCEPT !.sig = "cnt"]
     [] s.t = "tryexc" ->                \* try: a[1]  except InjectedError [as e]: a[2]     (e is never read)
          LET s1 == Exec(s.a[1], st) IN
-         IF s1.exc = "InjectedError" THEN Exec(s.a[2], [s1 EXCEPT !.exc = ""]) ELSE s1
+         IF s1.exc = "InjectedError"
+         THEN [Exec(s.a[2], [s1 EXCEPT !.exc = "", !.held = @ + 1]) EXCEPT !.held = st.held] ELSE s1
     [] s.t = "tryfin" ->                \* try: a[1]  finally: a[2]
          LET s1 == Exec(s.a[1], st)
              s2 == Exec(s.a[2], [s1 EXCEPT !.exc = "", !.sig = ""])
          IN IF Abn(s2)                    \* the finally clause raised or jumped: what was pending is discarded
-            THEN IF Pending(s1) = "" THEN s2 ELSE Sem(s2, "drop:" \o Pending(s1) \o ":fin:" \o Pending(s2))
+            THEN IF Pending(s1) = "" THEN s2
+                 ELSE Sem(s2, "drop:" \o Pending(s1) \o ":fin:" \o Pending(s2) \o (IF st.held > 0 THEN ":held" ELSE ""))
             ELSE [s2 EXCEPT !.exc = s1.exc, !.sig = s1.sig, !.rv = s1.rv]
     [] s.t = "with" ->                  \* with a[1] [as s.s]: a[2]
          LET r == Eval(s.a[1], st) IN
@@ -373,6 +379,11 @@ SysProgs2 == <<
   <<ForS("x", Tup(AddAB, NegB), TryF(Ret(X), Nd("break", "", <<>>))), Ret(NegB)>>,
   <<ForS("x", A, TryF(GAsg(E1("neg", Y)), Nd("break", "", <<>>))), Asg("y", A)>>,
   <<TryF(Ret(AddAB), IfS(A, Ret(NegB), PassS))>>,
+  <<ForS("x", A, TryF(Ret(E1("neg", X)), Ret(X)))>>,
+  <<ForS("x", Tup(AddAB, NegB), TryF(Ret(X), Ret(A)))>>,
+  <<TryE(GAsg(NegB), TryF(Ret(AddAB), Ret(A)))>>,
+  <<Nd("tryexc", "e", <<GAsg(NegB), TryF(Ret(AddAB), IfS(B, PassS, Ret(A)))>>)>>,
+  <<WithS("", A, TryF(Ret(AddAB), Ret(NegB)))>>,
   <<IfS(B, Asg("y", A), PassS), TryF(ExprS(E1("neg", Y)), Ret(A))>>,
   <<TryF(TryF(Ret(AddAB), GAsg(NegB)), GAsg(E1("neg", A)))>>,
   <<TryF(Ret(AddAB), WithS("x", A, GAsg(X)))>>,
